@@ -1,7 +1,6 @@
 package imgworld
 
 import (
-	"context"
 	"encoding/json"
 	"fmt"
 	"path/filepath"
@@ -26,6 +25,8 @@ type C10 struct{}
 type C10Scenario struct {
 	Mode         string `json:"mode,omitempty"`
 	ReadSymlinks bool   `json:"read_symlinks,omitempty"`
+	// Deadline: the cancellations arrive the way an expired deadline does (context.DeadlineExceeded)
+	Deadline bool `json:"deadline,omitempty"`
 	// Cancels (replay narrowing): only these cancellation instants; empty = every Extract call.
 	Cancels []int     `json:"cancels,omitempty"`
 	L       int64     `json:"limit"`
@@ -35,7 +36,7 @@ type C10Scenario struct {
 
 func (C10) ID() string { return "C10" }
 func (C10) Rule() string {
-	return "(image) MaxFileBytes = L in {1,7,512}; 1-4 layers (empty history entries interleaved, broken histories included) whose archives hold regular files of size L-1, L, L+1, 2L (and a few unrelated sizes) over <=6 paths, rewritten across layers and now and then twice within one archive, seeded stream chunking; loaded with the real FromV1Image (simulated v1.Image) or FromTarball (real docker-save tarball); evaluation = one image load + observation of every chain-layer view (recursive walk and direct Stat/Open of every path) + snapshot of ExtractDir while the image is alive; non-trivial = the image holds at least one file of size >= L and one below. Container-scan configuration (1 in 3 scenarios): 2-5 layers rewriting 1-2 package-list files with 0-7 nine-byte lines each (deleted / re-created in between) so that the size of a path crosses MaxFileSize = L in {15, 30, 45} between layers; real Scanner.ScanContainer (main scan + trace.PopulateLayerDetails re-running filesystem.Run on older views) optionally a symlink to a list file that the extractor requires too and ReadSymlinks (3 in 4); a harness extractor records Info.Size() and the bytes it could read for EVERY file it is handed; then cancel() is delivered from inside the k-th Extract call for EVERY k of the fault-free run (main scan and tracing phase): no Extract call may start afterwards, and the scan must not report success when extractions of the fault-free run remained; non-trivial = a path is within the limit in the final view and above it in an earlier view, or work remained after a cancellation instant; distinct = distinct scenario JSON"
+	return "(image) MaxFileBytes = L in {1,7,512}; 1-4 layers (empty history entries interleaved, broken histories included) whose archives hold regular files of size L-1, L, L+1, 2L (and a few unrelated sizes) over <=6 paths, rewritten across layers and now and then twice within one archive, seeded stream chunking; loaded with the real FromV1Image (simulated v1.Image) or FromTarball (real docker-save tarball); evaluation = one image load + observation of every chain-layer view (recursive walk and direct Stat/Open of every path) + snapshot of ExtractDir while the image is alive; non-trivial = the image holds at least one file of size >= L and one below. Container-scan configuration (1 in 3 scenarios): 2-5 layers rewriting 1-2 package-list files with 0-7 nine-byte lines each (deleted / re-created in between) so that the size of a path crosses MaxFileSize = L in {15, 30, 45} between layers; real Scanner.ScanContainer (main scan + trace.PopulateLayerDetails re-running filesystem.Run on older views) optionally a symlink to a list file that the extractor requires too and ReadSymlinks (3 in 4); a harness extractor records Info.Size() and the bytes it could read for EVERY file it is handed; then cancel() is delivered from inside the k-th Extract call for EVERY k of the fault-free run (main scan and tracing phase; in 1 of 3 scenarios the context ends the way an expired deadline does): no Extract call may start afterwards, and the scan must not report success when extractions of the fault-free run remained; non-trivial = a path is within the limit in the final view and above it in an earlier view, or work remained after a cancellation instant; distinct = distinct scenario JSON"
 }
 
 var c10Paths = []string{"a", "b", "d/a", "d/b", "d/e/a", "x"}
@@ -85,6 +86,7 @@ func genC10Scan(rt *rapid.T) *C10Scenario {
 	}
 	genHistory(rt, &sc.Image, nl, true)
 	sc.ReadSymlinks = rapid.IntRange(0, 3).Draw(rt, "read_symlinks") > 0
+	sc.Deadline = rapid.IntRange(0, 2).Draw(rt, "deadline") == 0
 	return sc
 }
 
@@ -236,7 +238,7 @@ func runC10Scan(sc *C10Scenario, out *sim.Outcome) *sim.Outcome {
 	var lastAttribution string
 	scan := func(cancelAt int) ([]extractRec, bool) {
 		var recs []extractRec
-		ctx, cancel := context.WithCancel(context.Background())
+		ctx, cancel := cancellable(sc.Deadline)
 		defer cancel()
 		x := &listExtractor{spec: &ListExtSpec{Name: "list/rec", PurlType: "generic", Files: required}, rec: &recs}
 		if cancelAt > 0 {
